@@ -113,4 +113,141 @@ fn try_build_load<'a>(&'a self, whirlpool: &Account<Whirlpool>) -> (r: Result<Ve
         decreases self.tick_array_accounts.len() - ai_it,
 //@ end
 }
+
+// ------------------------------------------------------------------ try_build, second loop: which arrays are selected, in which order
+//@ assume try_build selection shims: std VecDeque is a Vec-backed shim (with_capacity / push_back / is_empty / pop_front over a Seq view); `iter().position(|t| t.start_tick_index() == s)` and `iter().any(|a| a.key() == k)` are the named helpers position_by_start / has_key with the std semantics (first match / some match); a loaded array exposes its start index (start_of); derive_tick_array_pda is an uninterpreted function pda_of(pool, start); ProxiedTickArray's two constructors are the enum's two variants
+pub uninterp spec fn start_of<'a>(t: LoadedTickArrayMut<'a>) -> i32;
+impl<'a> LoadedTickArrayMut<'a> {
+    #[verifier::external_body]
+    pub fn start_tick_index(&self) -> (r: i32) ensures r == start_of(*self) { unimplemented!() }
+}
+pub uninterp spec fn pda_of(pool: Pubkey, start: i32) -> Pubkey;
+#[verifier::external_body]
+fn derive_tick_array_pda(whirlpool: &Account<Whirlpool>, start_tick_index: i32) -> (r: Pubkey) ensures r == pda_of(whirlpool.k, start_tick_index) { unimplemented!() }
+pub enum ProxiedTickArray<'a> { Initialized(LoadedTickArrayMut<'a>), Uninitialized(i32) }
+impl<'a> ProxiedTickArray<'a> {
+    pub fn new_initialized(refmut: LoadedTickArrayMut<'a>) -> (r: Self) ensures r == ProxiedTickArray::Initialized(refmut) { ProxiedTickArray::Initialized(refmut) }
+    pub fn new_uninitialized(start_tick_index: i32) -> (r: Self) ensures r == ProxiedTickArray::<'a>::Uninitialized(start_tick_index) { ProxiedTickArray::Uninitialized(start_tick_index) }
+}
+pub struct VecDeque<T> { pub v: Vec<T> }
+impl<T> VecDeque<T> {
+    pub open spec fn view(&self) -> Seq<T> { self.v@ }
+    #[verifier::external_body]
+    pub fn with_capacity(n: usize) -> (r: Self) ensures r@ == Seq::<T>::empty() { unimplemented!() }
+    #[verifier::external_body]
+    pub fn push_back(&mut self, x: T) ensures final(self)@ == old(self)@.push(x) { unimplemented!() }
+    #[verifier::external_body]
+    pub fn is_empty(&self) -> (r: bool) ensures r == (self@.len() == 0) { unimplemented!() }
+    #[verifier::external_body]
+    pub fn pop_front(&mut self) -> (r: Option<T>)
+        ensures old(self)@.len() == 0 ==> r is None && final(self)@ == old(self)@,
+                old(self)@.len() > 0 ==> r == Some(old(self)@[0]) && final(self)@ == old(self)@.subrange(1, old(self)@.len() as int) { unimplemented!() }
+}
+pub struct SwapTickSequence<'a> { pub a0: ProxiedTickArray<'a>, pub a1: Option<ProxiedTickArray<'a>>, pub a2: Option<ProxiedTickArray<'a>> }
+impl<'a> SwapTickSequence<'a> {
+    pub fn new_with_proxy(a0: ProxiedTickArray<'a>, a1: Option<ProxiedTickArray<'a>>, a2: Option<ProxiedTickArray<'a>>) -> (r: Self) ensures r.a0 == a0, r.a1 == a1, r.a2 == a2 { SwapTickSequence { a0, a1, a2 } }
+}
+#[verifier::external_body]
+fn get_start_tick_indexes(whirlpool: &Account<Whirlpool>, a_to_b: bool) -> (r: Vec<i32>)
+    ensures forall|i: int, j: int| 0 <= i < j < r@.len() ==> r@[i] != r@[j] { unimplemented!() }
+#[verifier::external_body]
+fn position_by_start<'a>(v: &Vec<LoadedTickArrayMut<'a>>, s: i32) -> (r: Option<usize>)
+    ensures match r { Some(i) => i < v@.len() && start_of(v@[i as int]) == s && (forall|j: int| 0 <= j < i ==> start_of(#[trigger] v@[j]) != s),
+                      None => forall|j: int| 0 <= j < v@.len() ==> start_of(#[trigger] v@[j]) != s }
+{ unimplemented!() }
+pub open spec fn keys_have<'a>(accs: Seq<AccountInfo<'a>>, k: Pubkey) -> bool { exists|i: int| 0 <= i < accs.len() && *(#[trigger] accs[i]).key == k }
+#[verifier::external_body]
+fn has_key<'a>(v: &Vec<AccountInfo<'a>>, k: Pubkey) -> (r: bool) ensures r == keys_have(v@, k) { unimplemented!() }
+
+/// the j-th selected array is the array for the j-th start index: the loaded (initialized) one whenever one was supplied, a zeroed proxy only when none was
+/// supplied but the account at that array's PDA was
+pub open spec fn slot_ok<'a>(orig: Seq<LoadedTickArrayMut<'a>>, accs: Seq<AccountInfo<'a>>, pool: Pubkey, s: i32, p: ProxiedTickArray<'a>) -> bool {
+    match p {
+        ProxiedTickArray::Initialized(t) => orig.contains(t) && start_of(t) == s,
+        ProxiedTickArray::Uninitialized(z) => z == s && keys_have(accs, pda_of(pool, s)) && (forall|x: LoadedTickArrayMut<'a>| orig.contains(x) ==> start_of(x) != s),
+    }
+}
+/// C10: the selection is a PREFIX of the start-index list without gaps, and it stops only where nothing was supplied for the next start index
+pub open spec fn selected_ok<'a>(orig: Seq<LoadedTickArrayMut<'a>>, starts: Seq<i32>, accs: Seq<AccountInfo<'a>>, pool: Pubkey, req: Seq<ProxiedTickArray<'a>>) -> bool {
+    &&& req.len() <= starts.len()
+    &&& (forall|j: int| 0 <= j < req.len() ==> slot_ok(orig, accs, pool, starts[j], #[trigger] req[j]))
+    &&& (req.len() < starts.len() ==> !keys_have(accs, pda_of(pool, starts[req.len() as int])) && (forall|x: LoadedTickArrayMut<'a>| orig.contains(x) ==> start_of(x) != starts[req.len() as int]))
+}
+pub proof fn lemma_remove_contains<T>(s: Seq<T>, i: int, x: T)
+    requires 0 <= i < s.len(),
+    ensures s.remove(i).contains(x) ==> s.contains(x), s.contains(x) && x != s[i] ==> s.remove(i).contains(x),
+{
+    let r = s.remove(i);
+    if r.contains(x) { let j = choose|j: int| 0 <= j < r.len() && r[j] == x; if j < i { assert(s[j] == x); } else { assert(s[j + 1] == x); } }
+    if s.contains(x) && x != s[i] { let j = choose|j: int| 0 <= j < s.len() && s[j] == x; if j < i { assert(r[j] == x); } else { assert(r[j - 1] == x); } }
+}
+impl<'info> SparseSwapTickSequenceBuilder<'info> {
+//@ seg util/sparse_swap.rs try_build in=/^impl<'info> SparseSwapTickSequenceBuilder<'info> \{/ from=/let mut required_tick_arrays: VecDeque<ProxiedTickArray> = / to=/^        if required_tick_arrays\.is_empty\(\) \{/ var=loaded_tick_arrays ret=required_tick_arrays
+fn try_build_select<'a>(&'a self, whirlpool: &Account<Whirlpool>, loaded_tick_arrays_in: Vec<LoadedTickArrayMut<'a>>, start_tick_indexes: Vec<i32>) -> (r: VecDeque<ProxiedTickArray<'a>>)
+    requires forall|i: int, j: int| 0 <= i < j < start_tick_indexes@.len() ==> start_tick_indexes@[i] != start_tick_indexes@[j], // base + o * 88 * spacing for distinct offsets o
+    ensures selected_ok(loaded_tick_arrays_in@, start_tick_indexes@, self.tick_array_accounts@, whirlpool.k, r@),
+//@ rewrite /for start_tick_index in start_tick_indexes\.iter\(\) \{/ => /let mut sti_it: usize = 0; while sti_it < start_tick_indexes.len() { let start_tick_index = &start_tick_indexes[sti_it]; sti_it = sti_it + 1;/
+//@ rewrite /loaded_tick_arrays\s*\.iter\(\)\s*\.position\(\|tick_array\| tick_array\.start_tick_index\(\) == \*start_tick_index\)/ => /position_by_start(&loaded_tick_arrays, *start_tick_index)/
+//@ rewrite /self\s*\.tick_array_accounts\s*\.iter\(\)\s*\.any\(\|account_info\| account_info\.key\(\) == tick_array_pda\)/ => /has_key(&self.tick_array_accounts, tick_array_pda)/
+//@ loop 0
+        invariant_except_break
+            required_tick_arrays@.len() == sti_it,
+        invariant
+            sti_it <= start_tick_indexes@.len(), required_tick_arrays@.len() <= sti_it,
+            forall|i: int, j: int| 0 <= i < j < start_tick_indexes@.len() ==> start_tick_indexes@[i] != start_tick_indexes@[j],
+            forall|j: int| 0 <= j < required_tick_arrays@.len() ==> slot_ok(loaded_tick_arrays_in@, self.tick_array_accounts@, whirlpool.k, start_tick_indexes@[j], #[trigger] required_tick_arrays@[j]),
+            // what is still in the working list: everything supplied whose start index has not been consumed yet
+            forall|x: LoadedTickArrayMut<'a>| loaded_tick_arrays@.contains(x) ==> loaded_tick_arrays_in@.contains(x),
+            forall|x: LoadedTickArrayMut<'a>| loaded_tick_arrays_in@.contains(x) && (forall|j: int| 0 <= j < required_tick_arrays@.len() ==> start_of(x) != start_tick_indexes@[j]) ==> loaded_tick_arrays@.contains(x),
+        ensures selected_ok(loaded_tick_arrays_in@, start_tick_indexes@, self.tick_array_accounts@, whirlpool.k, required_tick_arrays@),
+        decreases start_tick_indexes@.len() - sti_it,
+//@ inject before /let tick_array = loaded_tick_arrays\.remove\(pos\);/
+                let ghost before = loaded_tick_arrays@; let ghost reqb = required_tick_arrays@;
+                proof { assert(before.contains(before[pos as int])); }
+//@ inject before /^\s*continue;/ 1
+                proof {
+                    assert forall|x: LoadedTickArrayMut<'a>| loaded_tick_arrays@.contains(x) implies loaded_tick_arrays_in@.contains(x) by { lemma_remove_contains(before, pos as int, x); }
+                    assert forall|x: LoadedTickArrayMut<'a>| loaded_tick_arrays_in@.contains(x) && (forall|j: int| 0 <= j < required_tick_arrays@.len() ==> start_of(x) != start_tick_indexes@[j])
+                        implies loaded_tick_arrays@.contains(x) by {
+                        assert(required_tick_arrays@.len() == reqb.len() + 1);
+                        assert(start_of(x) != start_tick_indexes@[reqb.len() as int]);
+                        assert(forall|j: int| 0 <= j < reqb.len() ==> start_of(x) != start_tick_indexes@[j]);
+                        assert(before.contains(x));
+                        lemma_remove_contains(before, pos as int, x);
+                    }
+                }
+//@ end
+//@ seg util/sparse_swap.rs try_build in=/^impl<'info> SparseSwapTickSequenceBuilder<'info> \{/ from=/let start_tick_indexes = get_start_tick_indexes\(whirlpool, a_to_b\);/ to=/let mut required_tick_arrays: VecDeque<ProxiedTickArray> = / ret=start_tick_indexes
+fn try_build_starts(whirlpool: &Account<Whirlpool>, a_to_b: bool) -> (r: Vec<i32>)
+    ensures forall|i: int, j: int| 0 <= i < j < r@.len() ==> r@[i] != r@[j],
+//@ end
+/// C10: no array selected is an error; otherwise the sequence is the first three selected arrays, in selection order
+//@ seg util/sparse_swap.rs try_build in=/^impl<'info> SparseSwapTickSequenceBuilder<'info> \{/ from=/^        if required_tick_arrays\.is_empty\(\) \{/ to=END var=required_tick_arrays
+fn try_build_finish<'a>(required_tick_arrays_in: VecDeque<ProxiedTickArray<'a>>) -> (r: Result<SwapTickSequence<'a>>)
+    ensures r is Ok <==> required_tick_arrays_in@.len() > 0,
+        r matches Ok(q) ==> { let req = required_tick_arrays_in@;
+            q.a0 == req[0] && q.a1 == (if req.len() > 1 { Some(req[1]) } else { None::<ProxiedTickArray<'a>> }) && q.a2 == (if req.len() > 2 { Some(req[2]) } else { None::<ProxiedTickArray<'a>> }) },
+//@ rewrite /crate::errors::ErrorCode::InvalidTickArraySequence\.into\(\)/ => /Error { code: crate::errors::ErrorCode::InvalidTickArraySequence }/
+//@ end
+/// composition artifact (not repository text): the four segments in the order in which they tile try_build, as one function. What try_build returns on success is
+/// the first three arrays of a gap-free selection over EVERYTHING that was supplied and passed the loader.
+pub open spec fn built_from<'a>(accs: Seq<AccountInfo<'a>>, pool: Pubkey, starts: Seq<i32>, req: Seq<ProxiedTickArray<'a>>, q: SwapTickSequence<'a>) -> bool {
+    req.len() > 0 && selected_ok(loaded_spec(accs, pool, accs.len() as int), starts, accs, pool, req)
+    && q.a0 == req[0] && q.a1 == (if req.len() > 1 { Some(req[1]) } else { None::<ProxiedTickArray<'a>> }) && q.a2 == (if req.len() > 2 { Some(req[2]) } else { None::<ProxiedTickArray<'a>> })
+}
+fn try_build_composed<'a>(&'a self, whirlpool: &Account<Whirlpool>, a_to_b: bool) -> (r: Result<SwapTickSequence<'a>>)
+    ensures r matches Ok(q) ==> exists|starts: Seq<i32>, req: Seq<ProxiedTickArray<'a>>| #[trigger] Self::built_from(self.tick_array_accounts@, whirlpool.k, starts, req, q),
+        (exists|i: int| 0 <= i < self.tick_array_accounts@.len() && #[trigger] loaded_of(self.tick_array_accounts@[i], whirlpool.k) is Err) ==> r is Err,
+{
+    let loaded = match self.try_build_load(whirlpool) { Ok(v) => v, Err(e) => { return Err(e); } };
+    let starts = Self::try_build_starts(whirlpool, a_to_b);
+    let ghost st = starts@;
+    let req = self.try_build_select(whirlpool, loaded, starts);
+    let ghost rq = req@;
+    let r = Self::try_build_finish(req);
+    proof { if r is Ok { assert(Self::built_from(self.tick_array_accounts@, whirlpool.k, st, rq, r->Ok_0)); } }
+    r
+}
+//@ segcheck util/sparse_swap.rs try_build in=/^impl<'info> SparseSwapTickSequenceBuilder<'info> \{/
+}
 }
